@@ -1,8 +1,61 @@
 package main
 
-import "fmt"
+import (
+	"flag"
+	"fmt"
+	"os"
+	"os/exec"
+	"sort"
+)
 
+// cmdSelftest tests the checker in both directions:
+//   - silent: every registered property's quick check exits 0 on the given tree;
+//   - firing: every seeded change under /verif/seeded (a change that breaks a property while compiling and
+//     keeping the test suite green, produced independently and verified by seedverify.sh) is reported by the
+//     rules of its property when applied to a scratch copy.
+//
+// Exit 0 only if both hold.
 func cmdSelftest(args []string) int {
-	fmt.Println("selftest: not built yet")
+	fs := flag.NewFlagSet("selftest", flag.ExitOnError)
+	prop := fs.String("property", "", "restrict to one property")
+	repo := fs.String("repo", "/repo", "repository working tree")
+	fs.Parse(args)
+	self, err := os.Executable()
+	if err != nil {
+		fmt.Println(err)
+		return 2
+	}
+	var ids []string
+	for id := range registry {
+		if *prop == "" || *prop == id {
+			ids = append(ids, id)
+		}
+	}
+	sort.Strings(ids)
+	bad := 0
+	for _, id := range ids {
+		cmd := exec.Command(self, "check", "-property", id, "-repo", *repo, "-no-evidence")
+		out, _ := cmd.CombinedOutput()
+		code := cmd.ProcessState.ExitCode()
+		if code != 0 {
+			bad++
+			fmt.Printf("selftest %s: NOT silent on the unchanged tree (exit %d)\n%s\n", id, code, firstLines(string(out), 12))
+			continue
+		}
+		res := runSeeded(id, *repo, verifDir())
+		if res == nil {
+			fmt.Printf("selftest %s: silent on the tree; no seeded changes kept\n", id)
+			continue
+		}
+		if res["reported"].(int) != res["of"].(int) {
+			bad++
+			fmt.Printf("selftest %s: seeded change(s) missed: %v\n", id, res["details"])
+		}
+	}
+	if bad > 0 {
+		fmt.Printf("selftest: %d problem(s)\n", bad)
+		return 1
+	}
+	fmt.Printf("selftest: %d properties silent on the tree and all seeded changes reported\n", len(ids))
 	return 0
 }
